@@ -14,10 +14,29 @@ Definition fv (x : node) :=
   (self x, others x, role x, term x, voted x, votes x, log x, commit x, match_idx x,
    sr x, queue x, applied x, replay_idx x, readonly x).
 
+Lemma fv_eq x y : fv x = fv y ->
+  self x = self y /\ others x = others y /\ role x = role y /\ term x = term y /\ voted x = voted y /\
+  votes x = votes y /\ log x = log y /\ commit x = commit y /\ match_idx x = match_idx y /\
+  sr x = sr y /\ queue x = queue y /\ applied x = applied y /\ replay_idx x = replay_idx y /\
+  readonly x = readonly y.
+Proof. unfold fv. intros H. injection H; intros. repeat split; assumption. Qed.
+
 Ltac fvinj H :=
-  let h := fresh in
-  pose proof H as h; unfold fv in h;
-  injection h; clear h; do 14 intro.
+  let h := fresh "Hfv" in
+  pose proof (fv_eq _ _ H) as h; cbn in h;
+  destruct h as (? & ? & ? & ? & ? & ? & ? & ? & ? & ? & ? & ? & ? & ?).
+
+(* the same with names: [fvinj_n H F] introduces Fself Foth Frole Fterm Fvoted Fvotes Flog Fcommit
+   Fmatch Fsr Fqueue Fapplied Freplay Fro *)
+Ltac fvinj_n H p :=
+  let h := fresh "Hfv" in
+  let a1 := fresh p "self" in let a2 := fresh p "oth" in let a3 := fresh p "role" in
+  let a4 := fresh p "term" in let a5 := fresh p "voted" in let a6 := fresh p "votes" in
+  let a7 := fresh p "log" in let a8 := fresh p "commit" in let a9 := fresh p "match" in
+  let a10 := fresh p "sr" in let a11 := fresh p "queue" in let a12 := fresh p "applied" in
+  let a13 := fresh p "replay" in let a14 := fresh p "ro" in
+  pose proof (fv_eq _ _ H) as h; cbn in h;
+  destruct h as (a1 & a2 & a3 & a4 & a5 & a6 & a7 & a8 & a9 & a10 & a11 & a12 & a13 & a14).
 
 Definition Hser (x : node) : Prop := pid (sr x) = 0 /\ stored (sr x) = None /\ trans (sr x) = [].
 
@@ -311,18 +330,25 @@ Proof.
   rewrite <- N3 in A, B, C.
   assert (F4 : fv (nd s4) = fv ((nd s) <| role := LEADER |> <| match_idx := match_idx (nd s3) |>
                                  <| log := log (nd s) ++ [noop_entry (nd s)] |>)).
-  { apply (bl_tail_fv (nd s) (nd s3)); auto.
-    - rewrite A. Show. subst s2. cbn [nd upd]. rewrite N1. reflexivity.
-    - rewrite B. subst s2. cbn [nd upd]. rewrite N1. reflexivity. }
+  { assert (E2 : nd s2 = (nd s) <| leader := self (nd s) |> <| role := LEADER |> <| last_resp := [] |>).
+    { unfold s2. rewrite nd_upd, N1. reflexivity. }
+    apply (bl_tail_fv (nd s) (nd s3)); auto.
+    - rewrite A, E2. reflexivity.
+    - rewrite B, E2. reflexivity. }
   assert (O4 : outs s4 = outs s ++ r) by (subst s4 s3 s2; cbn; auto).
+  assert (C4 : forall f, In f (others (nd s)) -> aget f (match_idx (nd s3)) = Some 0).
+  { intros f Hf. apply C. left. apply In_sunion. left.
+    unfold s2. rewrite nd_upd, N1. exact Hf. }
+  set (mi := match_idx (nd s3)) in *. clearbody mi.
+  clearbody s4. clear A B C N3. clear s3 s2. clear O1 N1. clear s1.
   assert (HS4 : Hser (nd s4)).
-  { fvinj F4. unfold Hser. cbn in *. split; [congruence|]. split; congruence. }
+  { fvinj F4. unfold Hser. split; [congruence|]. split; congruence. }
   assert (W4 : wf1 (log (nd s4))).
-  { fvinj F4. cbn in *. replace (log (nd s4)) with (log (nd s) ++ [noop_entry (nd s)]) by congruence.
-    apply wf1_app; auto. }
+  { fvinj F4. replace (log (nd s4)) with (log (nd s) ++ [noop_entry (nd s)]) by congruence.
+    apply wf1_app; [exact W|reflexivity]. }
   assert (Sm4 : Forall smalle (log (nd s4))).
-  { fvinj F4. cbn in *. replace (log (nd s4)) with (log (nd s) ++ [noop_entry (nd s)]) by congruence.
-    apply Forall_app. split; auto. constructor; auto. unfold small, small_cmd. cbn. exact Hb. }
+  { fvinj F4. replace (log (nd s4)) with (log (nd s) ++ [noop_entry (nd s)]) by congruence.
+    apply Forall_app. split; [exact Sm|]. constructor; [|constructor]. unfold small, small_cmd. cbn. exact Hb. }
   assert (Hfin : forall s5, ae_rel s4 s5 ->
             exists mi r0 new,
               fv (nd s5) = fv ((nd s) <| role := LEADER |> <| match_idx := mi |>
@@ -330,12 +356,10 @@ Proof.
               (forall f, In f (others (nd s)) -> aget f mi = Some 0) /\
               outs s5 = outs s ++ r0 ++ new /\ (forall d m, ~ In (Send d m) r0) /\
               Forall (ae_out (nd s5)) new).
-  { intros s5 [F5 (new & O5 & A5)]. exists (match_idx (nd s3)), r, new.
-    split; [congruence|]. split.
-    - intros f Hf. apply C. left. apply In_sunion. left.
-      subst s2. cbn. rewrite N1. cbn. exact Hf.
-    - split; [rewrite O5, O4, app_assoc; reflexivity|]. split; auto.
-      eapply Forall_impl; [|exact A5]. intros o. apply ae_out_fv. auto. }
+  { intros s5 [F5 (new & O5 & A5)]. exists mi, r, new.
+    split; [rewrite F5; exact F4|]. split; [exact C4|].
+    split; [rewrite O5, O4, app_assoc; reflexivity|]. split; auto.
+    eapply Forall_impl; [|exact A5]. intros o. apply ae_out_fv. auto. }
   rewrite andthen_eq.
   destruct (use_batch (cf e)).
   - change (ok s4) with (ok s4). destruct (ok s4) eqn:Eo.
